@@ -90,7 +90,7 @@ def _adj_bundle(m, which):
     val = np.asarray(getattr(m, which))
     if which in ("face_adjacency_radius", "face_adjacency_span"):
         # radius = span / (2 sin(angle / 2)) is ill conditioned for nearly coplanar pairs
-        val = np.where(np.abs(np.asarray(m.face_adjacency_angles)) < 1e-4, -1.0, np.where(np.isfinite(val), val, -2.0)) if which == "face_adjacency_radius" else val
+        val = np.where(np.abs(np.sin(np.asarray(m.face_adjacency_angles))) < 1e-4, -1.0, np.where(np.isfinite(val), val, -2.0)) if which == "face_adjacency_radius" else val
     if which == "face_adjacency_unshared":
         val = val.copy()
         val[swap] = val[swap][:, ::-1]
